@@ -23,7 +23,9 @@ impl<A: Actor> WeakAddr<A> {
     }
 
     pub fn stopped(&self) -> bool {
-        self.running.peek().is_some()
+        // `peek` only sees a result that some clone has already polled out
+        futures::future::FusedFuture::is_terminated(&self.running)
+            || futures::FutureExt::now_or_never(self.running.clone()).is_some()
     }
 
     pub fn try_stop(&mut self) -> Result<()> {
